@@ -356,6 +356,57 @@ Definition html_attrs_tag (ps : list (option ((str * bool) * bool) * tval)) : ou
       end
   end.
 
+(* ------------------------------------------------------------------------------------------------ *)
+(* 3b. HtmlAttrsNode.render on dictionary OBJECTS: what it does to the caller's dictionaries          *)
+(* ------------------------------------------------------------------------------------------------ *)
+(* The caller's `attrs` / `defaults` are objects that live on (context variables, class constants) and reach the
+   tag again.  A heap is the list of dictionary objects, a reference an index; None = argument absent / None
+   (`x or {}`).  render_heap transliterates the statements of render / append_attributes WITH their targets:
+     final_attrs = {}                       a NEW object f
+     final_attrs.update(defaults or {})     writes f, reads defaults
+     final_attrs.update(attrs or {})        writes f, reads attrs
+     result = {} ... result[key] = ...      a NEW object r (append_attributes), reads f and kwargs
+     attributes_to_string(result)           reads r
+   [kw] is the keyword dictionary the call receives (built per call by the tag machinery). *)
+Notation heap := (list (list ((str * bool) * aval))) (only parsing).
+Definition deref (h : list (list ((str * bool) * aval))) (r : option nat) : list ((str * bool) * aval) :=
+  match r with Some i => nth i h [] | None => [] end.
+Fixpoint hset (h : list (list ((str * bool) * aval))) (i : nat) (x : list ((str * bool) * aval))
+  : list (list ((str * bool) * aval)) :=
+  match h, i with
+  | [], _ => []
+  | _ :: t, O => x :: t
+  | y :: t, S j => y :: hset t j x
+  end.
+Definition halloc (h : list (list ((str * bool) * aval))) : list (list ((str * bool) * aval)) * nat :=
+  (h ++ [[]], length h).
+
+Definition render_heap (h : list (list ((str * bool) * aval))) (a d : option nat) (kw : list ((str * bool) * aval))
+  : outcome * list (list ((str * bool) * aval)) :=
+  let '(h1, f) := halloc h in
+  let h2 := hset h1 f (dupdate (nth f h1 []) (deref h1 d)) in
+  let h3 := hset h2 f (dupdate (nth f h2 []) (deref h2 a)) in
+  let '(h4, r) := halloc h3 in
+  match append_attributes (nth f h4 [] ++ kw) (nth r h4 []) with
+  | None => (ErrType, h4)
+  | Some res =>
+      let h5 := hset h4 r res in
+      (match attributes_to_string (nth r h5 []) with Some s => Out s | None => ErrValue end, h5)
+  end.
+
+(* a history: successive calls on the same heap; a call = (attrs reference, defaults reference, keyword dict) *)
+Fixpoint run_heap (h : list (list ((str * bool) * aval)))
+                  (cs : list (option nat * option nat * list ((str * bool) * aval)))
+  : list outcome * list (list ((str * bool) * aval)) :=
+  match cs with
+  | [] => ([], h)
+  | (a, d, kw) :: r =>
+      let '(o, h') := render_heap h a d kw in
+      let '(os, h'') := run_heap h' r in (o :: os, h'')
+  end.
+
+Definition ref_ok (n : nat) (r : option nat) : bool := match r with Some i => Nat.ltb i n | None => true end.
+
 (* ================================================================================================ *)
 (* 4. the reader: character references and the attribute tokenizer                                  *)
 (* ================================================================================================ *)
@@ -644,6 +695,23 @@ Definition check_tag (c : tag_case) : bool :=
 (* attributes_to_string called directly on a dict; observed: Some text | None = ValueError *)
 Definition ats_case := (list ((str * bool) * aval) * option str)%type.
 Definition check_ats (c : ats_case) : bool := option_eqb str_eqb (attributes_to_string (fst c)) (snd c).
+
+(* history: initial objects, calls, what each render did, the caller's objects afterwards *)
+Definition aval_eqb (a b : aval) : bool :=
+  match a, b with
+  | VStr x, VStr y | VSafe x, VSafe y | VObj x, VObj y => str_eqb x y
+  | VTrue, VTrue | VFalse, VFalse | VNone, VNone => true
+  | _, _ => false
+  end.
+Definition entry_eqb (a b : (str * bool) * aval) : bool :=
+  str_eqb (fst (fst a)) (fst (fst b)) && Bool.eqb (snd (fst a)) (snd (fst b)) && aval_eqb (snd a) (snd b).
+Definition hist_case := (list (list ((str * bool) * aval)) * list (option nat * option nat * list ((str * bool) * aval))
+                         * list outcome * list (list ((str * bool) * aval)))%type.
+Definition check_hist (c : hist_case) : bool :=
+  let '(h0, cs, obs, final) := c in
+  let '(os, h') := run_heap h0 cs in
+  forallb (fun c => ref_ok (length h0) (fst (fst c)) && ref_ok (length h0) (snd (fst c))) cs &&
+  list_eqb outcome_eqb os obs && list_eqb (list_eqb entry_eqb) (firstn (length h0) h') final.
 
 (* reader differential: attribute text, html.parser's attribute list *)
 Definition parse_case := (str * list (str * option str))%type.
